@@ -861,8 +861,8 @@ def unit_pair_cases(unit):
     by_site = {}
     for mi, (si, op, arg) in enumerate(muts):
         by_site.setdefault(si, []).append(mi)
-    # leaf / field sites only: choose the first PAIR_SITE_CAP sites that have mutations
-    chosen = [si for si in sorted(by_site) if sites[si][1] != "dict" or True][:PAIR_SITE_CAP]
+    # the first PAIR_SITE_CAP sites (document order) that have at least one mutation
+    chosen = sorted(by_site)[:PAIR_SITE_CAP]
     out = []
     for a, b in itertools.combinations(chosen, 2):
         pa, pb = sites[a][0], sites[b][0]
@@ -901,7 +901,8 @@ def run_gen2_pair(case):
         return bad(msg + f"\n  mutated document: {json.dumps(doc)[:1500]}", kind="gen2_pair", doc=os.path.basename(stem),
                    what=msg.split("\n")[0][:60])
     changed = text != _base_text(unit)
-    return good(nontrivial=bool(changed and cirq_types_in(text)), constructed=1, changed_value=int(changed), **cnt)
+    return good(nontrivial=bool(changed and cirq_types_in(text)), constructed=1, changed_value=int(changed), **cnt,
+                **{"cls:" + t: 1 for t in cirq_types_in(text)})
 
 
 # ---------------------------------------------------------------------------------------------
